@@ -71,7 +71,9 @@ fn replay(a: &Args) -> i32 {
     let text = std::fs::read_to_string(a.str("in", "")).expect("cases");
     let mut bad: Vec<Value> = vec![];
     let (mut n, mut oks, mut frames) = (0usize, 0usize, 0usize);
-    for line in text.lines() {
+    let at = a.str("at", "");
+    for (k, line) in text.lines().enumerate() {
+        if !at.is_empty() { let _ = std::fs::write(&at, k.to_string()); }
         let c: Value = serde_json::from_str(line).expect("json");
         let bytes = bytes_of(&c["bytes"]);
         let v = &c["verdict"];
